@@ -640,6 +640,103 @@ func hostileInputs(its []item, maxLen int) [][]byte {
 	return out
 }
 
+// ownedResults: what the copying readers hand out belongs to the caller.  ReadN (the counterpart of the
+// documented no-copy ZReadN) of BufferX and of ReaderX is kept while the buffer goes on being used -
+// drained, Reset, refilled, grown past its capacity, the slice given to NewReadableBufferX overwritten -
+// and must still hold the bytes that were read, which is what ReaderX.ReadN over the same bytes returns.
+// Sizes n x bytes left unread k x a consumed prefix x constructor x what happens afterwards.
+func ownedResults(c *seq.Ctx) {
+	pat := func(n int, salt byte) []byte {
+		b := make([]byte, n)
+		for i := range b {
+			b[i] = byte(i*7) + salt
+		}
+		return b
+	}
+	afters := []string{"reset+write", "drain+write", "grow", "reset+grow", "overwrite-source", "cycles"}
+	for _, n := range []int{1, 2, 5, 63, 64, 65, 300, 4096, 70000} {
+		for _, k := range []int{0, 1, 9} {
+			for _, prefix := range []int{0, 4} {
+				for _, ctor := range []string{"NewBufferX", "NewSizedBufferX(exact)", "NewSizedBufferX(0)", "NewReadableBufferX"} {
+					for _, after := range afters {
+						if after == "overwrite-source" && ctor != "NewReadableBufferX" {
+							continue
+						}
+						total := prefix + n + k
+						src := pat(total, 1)
+						want := append([]byte{}, src[prefix:prefix+n]...)
+						var buf *bytex.BufferX
+						switch ctor {
+						case "NewBufferX":
+							buf = bytex.NewBufferX()
+							buf.Write(src)
+						case "NewSizedBufferX(exact)":
+							buf = bytex.NewSizedBufferX(total)
+							buf.Write(src)
+						case "NewSizedBufferX(0)":
+							buf = bytex.NewSizedBufferX(0)
+							buf.Write(src)
+						default:
+							buf = bytex.NewReadableBufferX(src)
+						}
+						bad := ""
+						if prefix > 0 {
+							if _, e := buf.ReadU32(); e != nil {
+								bad = "prefix read failed: " + e.Error()
+							}
+						}
+						out, err := buf.ReadN(n)
+						rd := bytex.NewReaderX(bytes.NewReader(append([]byte{}, src[prefix:]...)))
+						outR, errR := rd.ReadN(n)
+						if bad == "" && (err != nil || errR != nil || !bytes.Equal(out, want) || !bytes.Equal(outR, want)) {
+							bad = fmt.Sprintf("ReadN(%d) of %d buffered bytes: buffer (%d bytes, %v) stream (%d bytes, %v)", n, n+k, len(out), err, len(outR), errR)
+						}
+						if bad == "" {
+							switch after {
+							case "reset+write":
+								buf.Reset()
+								buf.Write(pat(total, 101))
+							case "drain+write":
+								if k > 0 {
+									_, _ = buf.ReadN(k)
+								}
+								_, _ = buf.ReadU8() // a read on the empty buffer
+								buf.Write(pat(total, 101))
+							case "grow":
+								buf.Write(pat(2*total+64, 101))
+							case "reset+grow":
+								buf.Reset()
+								buf.Write(pat(2*total+64, 101))
+							case "overwrite-source":
+								for i := range src {
+									src[i] = 0xEE
+								}
+							case "cycles":
+								for cy := 0; cy < 6; cy++ {
+									if l := buf.Len(); l > 0 {
+										_, _ = buf.ReadN(l)
+									}
+									buf.Write(pat(total, byte(50+cy)))
+								}
+							}
+							if !bytes.Equal(out, want) {
+								i := 0
+								for i < n && out[i] == want[i] {
+									i++
+								}
+								bad = fmt.Sprintf("the %d bytes returned by BufferX.ReadN (constructor %s, %d bytes consumed before, %d left unread) changed at offset %d (%#x -> %#x) after %q on the buffer; ReaderX.ReadN's result over the same bytes is unchanged=%v", n, ctor, prefix, k, i, want[i], out[i], after, bytes.Equal(outR, want))
+							}
+						}
+						c.Case(fmt.Sprintf("owned/%s/%s/ok=%v", ctor, after, bad == ""), bad, "bytes returned by ReadN change when the buffer is used again", func() interface{} {
+							return map[string]interface{}{"n": n, "left": k, "prefix": prefix, "ctor": ctor, "after": after}
+						})
+					}
+				}
+			}
+		}
+	}
+}
+
 // reuse: a buffer that carried one message is Reset and used for the next one, for message sizes
 // around every power-of-two / allocation threshold up to 1 MiB and every constructor: after Reset the
 // buffer is empty (Len, Bytes, reads fail) and the next message round-trips exactly.
@@ -839,7 +936,7 @@ func readerKinds(c *seq.Ctx, its []item) {
 
 func main() {
 	r := ev.Start("C10")
-	r.Rule("round trip: every sequence of typed writes (length <= L over ~95 boundary-valued items) read back through the writing buffer, a fresh readable buffer and the stream reader; hostile: every reader method on all byte strings up to a length over {00,01,7f,80,ff}, every truncation of every valid encoding, oversized varints/length prefixes, against reference decoders; fragmentation: every composition (chunking) of inputs up to a length with both legal end-of-stream styles, stream reader vs buffer reader; reader kinds: every stream-readable item and string/raw fields of 0..70000 bytes (both sides of 16, 4096 and 64 KiB), complete and cut short, through ReaderX over 13 kinds of source (incl. sources that answer (0,nil) between bytes) (bytes/strings readers, bufio with 16/32/default buffers, one-byte, half, data-with-error, limit, multi) against BufferX; reuse: every constructor x message sizes around every allocation threshold up to 1 MiB x three ways of filling x 0/1/all bytes consumed, Reset, emptiness, next message round trip, two cycles; distinct = outcome classes (family, kind, ok/error)")
+	r.Rule("round trip: every sequence of typed writes (length <= L over ~95 boundary-valued items) read back through the writing buffer, a fresh readable buffer and the stream reader; hostile: every reader method on all byte strings up to a length over {00,01,7f,80,ff}, every truncation of every valid encoding, oversized varints/length prefixes, against reference decoders; fragmentation: every composition (chunking) of inputs up to a length with both legal end-of-stream styles, stream reader vs buffer reader; reader kinds: every stream-readable item and string/raw fields of 0..70000 bytes (both sides of 16, 4096 and 64 KiB), complete and cut short, through ReaderX over 13 kinds of source (incl. sources that answer (0,nil) between bytes) (bytes/strings readers, bufio with 16/32/default buffers, one-byte, half, data-with-error, limit, multi) against BufferX; reuse: every constructor x message sizes around every allocation threshold up to 1 MiB x three ways of filling x 0/1/all bytes consumed, Reset, emptiness, next message round trip, two cycles; owned results: BufferX.ReadN / ReaderX.ReadN results of 1..70000 bytes x 0/1/9 bytes left unread x consumed prefix x 4 constructors kept across reset+write, drain+write, growth, source overwrite and 6 refill cycles stay the bytes read; distinct = outcome classes (family, kind, ok/error)")
 	r.Assume("reference decoders: little-endian fixed width, encoding/binary varints, u32 length prefix", "an io.Reader may return fewer bytes than asked and may return (n, io.EOF) with the last bytes")
 	its := items()
 	L := r.Pick(3, 4)
@@ -848,6 +945,7 @@ func main() {
 		{Name: "fragmentation", Run: func(c *seq.Ctx) { fragmentation(c, its, r.Pick(12, 14)) }},
 		{Name: "rewrite", Run: func(c *seq.Ctx) { rewrite(c, its) }},
 		{Name: "reset-and-reuse", Run: reuse},
+		{Name: "owned-results", Run: ownedResults},
 		{Name: "reader-kinds", Run: func(c *seq.Ctx) { readerKinds(c, its) }},
 	}
 	// round trips are sharded by first item
